@@ -27,6 +27,7 @@ def check(chk):
     shared.cache_rules(chk, m, 'R5.8')
     shared.sign_rules(chk, m, 'R5.9')
     shared.grouping_rules(chk, m, 'R5.10')
+    r511(chk, m)
     chk.decline('the values bound for concrete invocations (value-level)')
     chk.decline('the mandatory first-token loops of readInteger/readDecimal on a missing number, and '
                 'readKeyword dropping an already expanded element after a missing unit (non-conforming calls)')
@@ -770,3 +771,62 @@ def r57(chk, m):
                    'reading an argument of a type with its own category codes (%s): on return the codes are %s; expected the codes '
                    'in force before the argument - otherwise the rest of the document is read with # ~ %% & as ordinary characters'
                    % (label, sorted(got)), chk.where(fn))
+
+
+# ---------------------------------------------------------------------------
+def r511(chk, m):
+    """Typed list / dictionary arguments: the splitters interpreted on character tokens."""
+    from .. import absint as A2
+    from . import domheap as D
+    R = chk.rule('R5.11', 'list- and dictionary-typed arguments, interpreted on character tokens: items are split at the delimiter outside '
+                 'braces; in a dictionary `k=v` binds the text of v, `k=` binds the empty text, a bare `k` binds True, keys and values '
+                 'keep their order and nothing of the argument is dropped', 8)
+    TeX = m.cls('plasTeX.TeX', 'TeX')
+
+    class H(D.DomHooks):
+        def lookup(self, interp, name, state):
+            return {'Token.CC_BGROUP': 1, 'Token.CC_EGROUP': 2, 'Token.CC_SPACE': 10, 'Token.CC_LETTER': 11, 'Token.CC_OTHER': 12}.get(name)
+
+        def call(self, interp, node, fname, args, kwargs, state):
+            if fname == 'self.normalize' and len(args) == 1:
+                v = args[0]
+                if v is None:
+                    return A2.NONE
+                if isinstance(v, list) and all(isinstance(x, str) for x in v):
+                    return ''.join(str(x) for x in v)
+                return A2.TOP
+            if fname == 'self.cast' and args:
+                return A2.NONE if args[0] is None else args[0]
+            return D.DomHooks.call(self, interp, node, fname, args, kwargs, state)
+
+    def toks(text_):
+        out = []
+        for c in text_:
+            cc = 1 if c == '{' else 2 if c == '}' else 10 if c == ' ' else 11 if c.isalpha() else 12
+            out.append(A2.TextObj(c, label=c, catcode=cc, nodeType=3, __eqkey=('tok', cc, c)))
+        return out
+    cases = [('castDictionary', 'a=1,b,c=', {}, "{'a': '1', 'b': True, 'c': ''}"),
+             ('castDictionary', 'k=', {}, "{'k': ''}"),
+             ('castDictionary', 'k', {}, "{'k': True}"),
+             ('castDictionary', 'a={x,y},b=2', {}, "{'a': '{x,y}', 'b': '2'}"),
+             ('castDictionary', 'a=1;b=', {'delim': ';'}, "{'a': '1', 'b': ''}"),
+             ('castDictionary', 'x=,y', {}, "{'x': '', 'y': True}"),
+             ('castList', 'a,b,,c', {}, "['a', 'b', '', 'c']"),
+             ('castList', 'a,{b,c},d', {}, "['a', '{b,c}', 'd']")]
+    for fname, arg, kw, want in cases:
+        fn = m.find_method(TeX, fname)
+        need(fn is not None, 'TeX.%s not found' % fname)
+        chk.analysed(fn)
+        it = A2.Interp(model=m, scope=fn, hooks=H(m, TeX), max_iter=len(arg) + 4, exc_edges=False, inline=3, heap=True, precise_exc=True)
+        it.h.should_inline = A2.private_only
+        env = {'self': A2.Obj('tex', {}, cls=TeX), 'tokens': toks(arg), 'kwargs': dict(kw)}
+        env['type'] = dict if fname == 'castDictionary' else list
+        outs = it.run_function(fn, env=env)
+        key = '%s(%s%s)' % (fname, arg, ''.join(', %s=%r' % kv for kv in kw.items()))
+        if it.imprecise or it.unknown_branches:
+            chk.undecided(R, key, '; '.join((it.imprecise + it.unknown_branches)[:2]), chk.where(fn))
+            continue
+        got = {('%r' % ({str(k): (str(v) if isinstance(v, str) else v) for k, v in v_.items()} if isinstance(v_, dict) else
+                       [str(x) if isinstance(x, str) else x for x in v_] if isinstance(v_, list) else v_,)) if kind == 'return' else 'raises %s' % (v_,)
+               for kind, s2, v_ in outs}
+        chk.decide(R, key, got, {want}, '%s gives %s, expected %s' % (key, sorted(got), want), chk.where(fn))
